@@ -1,4 +1,4 @@
-use yasna::{Tag, DERWriter, BERReader};
+use yasna::{Tag, DERWriter, BERReader, ASN1Error, ASN1ErrorKind, ASN1Result};
 use model::error::{RdpResult, Error};
 use indexmap::map::IndexMap;
 
@@ -721,6 +721,70 @@ impl ASN1 for Enumerate {
     }
 }
 
+/// Deepest nesting of elements accepted by the yasna reader
+const MAX_DEPTH: usize = 100;
+
+/// Check that the length announced by each element fits in the enclosing one
+///
+/// yasna 0.3 adds the announced length to its position before comparing it
+/// with the end of the buffer : a length close to usize::MAX overflows,
+/// which is a panic in place of an error. Only the headers are checked, and
+/// the content of constructed elements, all of which yasna has to walk
+/// too : nothing that yasna can read is refused here.
+/// `depth` is the number of enclosing elements, with `until_eoc` the
+/// elements belong to an indefinite length one. Return the consumed size.
+fn check_lengths(buf: &[u8], depth: usize, until_eoc: bool) -> ASN1Result<usize> {
+    let eof = || ASN1Error::new(ASN1ErrorKind::Eof);
+    let mut pos = 0;
+    while pos < buf.len() {
+        if depth > MAX_DEPTH {
+            return Err(ASN1Error::new(ASN1ErrorKind::StackOverflow))
+        }
+        let identifier = buf[pos];
+        pos += 1;
+        if identifier & 0x1f == 0x1f {
+            // tag number on following bytes, the last one has its high bit clear
+            while *buf.get(pos).ok_or_else(eof)? & 0x80 != 0 {
+                pos += 1;
+            }
+            pos += 1;
+        }
+        let length_byte = *buf.get(pos).ok_or_else(eof)?;
+        pos += 1;
+        if until_eoc && identifier == 0 && length_byte == 0 {
+            return Ok(pos)
+        }
+        let constructed = identifier & 0x20 != 0;
+        if length_byte == 0x80 {
+            if !constructed {
+                return Err(ASN1Error::new(ASN1ErrorKind::Invalid))
+            }
+            pos += check_lengths(&buf[pos..], depth + 1, true)?;
+            continue;
+        }
+        let mut length = (length_byte & 0x7f) as usize;
+        if length_byte & 0x80 != 0 {
+            let size = length;
+            length = 0;
+            for _ in 0..size {
+                length = length.checked_mul(256).ok_or_else(eof)? + *buf.get(pos).ok_or_else(eof)? as usize;
+                pos += 1;
+            }
+        }
+        if length > buf.len() - pos {
+            return Err(eof())
+        }
+        if constructed {
+            check_lengths(&buf[pos..pos + length], depth + 1, false)?;
+        }
+        pos += length;
+    }
+    if until_eoc {
+        return Err(eof())
+    }
+    Ok(pos)
+}
+
 /// Serialize an ASN1 message into der stream
 pub fn to_der(message: &dyn ASN1) -> Vec<u8> {
     yasna::construct_der(|writer| {
@@ -730,6 +794,7 @@ pub fn to_der(message: &dyn ASN1) -> Vec<u8> {
 
 /// Deserialize an ASN1 message from a stream
 pub fn from_der(message: &mut dyn ASN1, stream: &[u8]) ->RdpResult<()> {
+    check_lengths(stream, 0, false)?;
     Ok(yasna::parse_der(stream, |reader| {
         if let Err(Error::ASN1Error(e)) = message.read_asn1(reader) {
             return Err(e)
@@ -740,6 +805,7 @@ pub fn from_der(message: &mut dyn ASN1, stream: &[u8]) ->RdpResult<()> {
 
 /// Deserialize an ASN1 message from a stream using BER
 pub fn from_ber(message: &mut dyn ASN1, stream: &[u8]) ->RdpResult<()> {
+    check_lengths(stream, 0, false)?;
     Ok(yasna::parse_ber(stream, |reader| {
         if let Err(Error::ASN1Error(e)) = message.read_asn1(reader) {
             return Err(e)
